@@ -185,4 +185,74 @@ theorem sub_div_digits (a b v : Val) :
         · cases h
       · split at h <;> simp [U] at h
 
-end SqProps.C04
+/-! ### numeric builtins that select: `min` / `max` return one of their arguments -/
+
+theorem extreme_go_mem (h : Heap) (isMax : Bool) : ∀ (ys : List Val) (best r : Val),
+    extreme.go h isMax ys best = .ok r → r = best ∨ r ∈ ys := by
+  intro ys
+  induction ys with
+  | nil => intro best r hr; simp [extreme.go] at hr; exact Or.inl hr.symm
+  | cons y ys ih =>
+    intro best r hr
+    simp only [extreme.go] at hr
+    split at hr
+    · cases hr
+    · rcases ih y r hr with e | e
+      · exact Or.inr (by simp [e])
+      · exact Or.inr (by simp [e])
+    · rcases ih best r hr with e | e
+      · exact Or.inl e
+      · exact Or.inr (by simp [e])
+
+theorem extreme_mem (h : Heap) (isMax : Bool) (xs : List Val) (r : Val) (hr : extreme h isMax xs = .ok r) : r ∈ xs := by
+  cases xs with
+  | nil => simp [extreme] at hr
+  | cons x xs =>
+    rcases extreme_go_mem h isMax xs x r hr with e | e
+    · simp [e]
+    · simp [e]
+
+theorem sel_result (h0 : Heap) (isMax : Bool) (xs : List Val) (s : BState) (v : Val) (s' : BState)
+    (h : (extreme h0 isMax xs).map (·, s) = .ok (v, s')) : s' = s ∧ v ∈ xs := by
+  cases he : extreme h0 isMax xs with
+  | error e => rw [he] at h; cases h
+  | ok r =>
+    rw [he] at h
+    simp [Except.map] at h
+    obtain ⟨rfl, rfl⟩ := h
+    exact ⟨rfl, extreme_mem _ _ _ _ he⟩
+
+/-- **`min` never widens a number**: called with several arguments it returns ONE OF THEM (so its digits are those of an
+    argument), called with one container it returns one of its elements -/
+theorem min_returns_an_argument (args : List Val) (s : BState) (v : Val) (s' : BState) (h : b_min args s = .ok (v, s')) :
+    s' = s ∧ (v ∈ args ∨ ∃ c items, args = [c] ∧ iterItems s.heap c = .ok items ∧ v ∈ items) := by
+  unfold b_min at h
+  split at h
+  · cases h
+  · rename_i c
+    split at h
+    · rename_i items hi
+      obtain ⟨e, hm⟩ := sel_result _ _ _ _ _ _ h
+      exact ⟨e, Or.inr ⟨c, items, rfl, hi, hm⟩⟩
+    · cases h
+  · obtain ⟨e, hm⟩ := sel_result _ _ _ _ _ _ h
+    exact ⟨e, Or.inl hm⟩
+
+/-- … and so does `max` -/
+theorem max_returns_an_argument (args : List Val) (s : BState) (v : Val) (s' : BState) (h : b_max args s = .ok (v, s')) :
+    s' = s ∧ (v ∈ args ∨ ∃ c items, args = [c] ∧ iterItems s.heap c = .ok items ∧ v ∈ items) := by
+  unfold b_max at h
+  split at h
+  · cases h
+  · rename_i c
+    split at h
+    · rename_i items hi
+      obtain ⟨e, hm⟩ := sel_result _ _ _ _ _ _ h
+      exact ⟨e, Or.inr ⟨c, items, rfl, hi, hm⟩⟩
+    · cases h
+  · obtain ⟨e, hm⟩ := sel_result _ _ _ _ _ _ h
+    exact ⟨e, Or.inl hm⟩
+
+/-- `abs` of a decimal goes through the context: ≤ 28 digits -/
+theorem abs_dec_digits (x d : Dec) (h : Dec.abs' x = .ok d) : d.digits ≤ 28 := (dec_ops_fix_digits x x d).2.2.2.2.2 h
+
